@@ -1352,6 +1352,39 @@ def run(index, rep, tier):
             rep.check(n not in seen, "R20.18", pi_.qualname, "paged mode entered without the namespace being full", fn_where(pi_, n.ast), "_parse_interleaved: paged = True only when len(taxon_namespace) == ntax",
                       "PhylipReader._parse_interleaved sets `paged = True` on a path that has not established that the namespace holds NTAX taxa: rows of the following pages are looked up as `taxon_namespace[row]`, and when the first page repeated a label the namespace is shorter than NTAX - the look-up raises IndexError instead of the reader's own parse error")
 
+    # ---- R20.19 an annotation is not its value
+    with rep.section("R20.19"):
+        rep.rule("R20.19", "an annotation is not its value: on a name bound from `<obj>.annotations.find(...)` / `.add_new(...)` the readers use only attributes that the Annotation class has (the stored list is `.value`) - calling a list method on the Annotation itself raises AttributeError the second time a document is read into the same data set")
+        AN = index.klass("dendropy.datamodel.basemodel.Annotation")
+        an_attrs = set()
+        for k in index.mro(AN):
+            an_attrs |= set(k.methods) | set(k.class_attrs)
+            for f in k.methods.values():
+                an_attrs |= {w.attr for w in writes_in(f.node) if w.base is not None and norm(w.base) == "self"}
+        if "value" not in an_attrs:
+            raise AnalysisError("R20.19: the Annotation class no longer has a `value`")
+        n19 = 0
+        for m in sorted(index.modules):
+            if not m.startswith("dendropy.dataio"):
+                continue
+            for fi in index.functions_in_module(m):
+                names = {}
+                for st in walk_no_nested(fi.node):
+                    if isinstance(st, ast.Assign) and len(st.targets) == 1 and isinstance(st.targets[0], ast.Name) and isinstance(st.value, ast.Call) and call_name(st.value) in ("find", "add_new", "add_bound_attribute", "add_citation") \
+                            and isinstance(st.value.func, ast.Attribute) and norm(st.value.func.value).endswith("annotations"):
+                        names.setdefault(st.targets[0].id, []).append(st)
+                others = {t.id for st in walk_no_nested(fi.node) if isinstance(st, ast.Assign) for t in st.targets if isinstance(t, ast.Name)}
+                for x in walk_no_nested(fi.node):
+                    if isinstance(x, ast.Attribute) and isinstance(x.value, ast.Name) and x.value.id in names:
+                        # the name is bound to annotations only
+                        allb = [st for st in walk_no_nested(fi.node) if isinstance(st, ast.Assign) and any(isinstance(t, ast.Name) and t.id == x.value.id for t in st.targets)]
+                        if len(allb) != len(names[x.value.id]):
+                            continue
+                        n19 += 1
+                        rep.check(x.attr in an_attrs, "R20.19", fi.qualname, "`%s` used on an Annotation" % norm(x), fn_where(fi, x), "%s: %s is an attribute of Annotation" % (fi.name, norm(x)),
+                                  "%s uses `%s`, but `%s` is an Annotation (bound from `%s`) and Annotation has no attribute `%s` - the stored object is `%s.value`; the line raises AttributeError when an annotation of that name already exists, i.e. on the second read into the same data set" % (fi.qualname, norm(x), x.value.id, norm(names[x.value.id][0].value)[:60], x.attr, x.value.id))
+        rep.floor("R20.19", "attribute uses on annotations found by name", 1, n19)
+
 
 def _branch_calls_raiser(cfg, n):
     for lab, t in n.succ:
